@@ -122,11 +122,14 @@ def solve_smt2(o, timeout_ms=20000, cvc5=True, both=False):
     r = z3.unknown
     s = None
     # 1. the full query, default configuration, short budget (most obligations end here)
+    # budgets of the intermediate attempts grow with the overall budget (the retry pass gets three times as much): an
+    # obligation that needs a weakened query must not depend on a 3 s window when the machine is saturated
+    cap = max(3000, timeout_ms // 4)
     s, r = attempt(smt2, {}, min(timeout_ms, 2500))
     o['backend'] = 'z3'
     # 1b. the same with the legacy simplex core (often much faster on the div/mod-heavy layout arithmetic)
     if r == z3.unknown:
-        s, r = attempt(smt2, {'smt.arith.solver': 2}, min(timeout_ms, 4000))
+        s, r = attempt(smt2, {'smt.arith.solver': 2}, min(timeout_ms, cap))
         if r != z3.unknown:
             o['backend'] = 'z3(arith2)'
     # 2. weakened queries (unsat there is a proof): without the quantified assumptions from contract clauses (lite),
@@ -137,7 +140,7 @@ def solve_smt2(o, timeout_ms=20000, cvc5=True, both=False):
             if text is None:
                 continue
             for opts in ({}, MBQI):
-                _, r2 = attempt(text, opts, min(timeout_ms, 3000))
+                _, r2 = attempt(text, opts, min(timeout_ms, cap))
                 if r2 == z3.unsat:
                     o['status'] = 'proved'
                     o['backend'] = name
